@@ -105,7 +105,16 @@ TOKEN_DOCS = [[{"$ref": "x", "@ref": "y", "n": 5, "@x": 1, "#k": 1, "~": 2, "^":
 TOKEN_CTX = {"$limit": 2, "_limit": 100, "_y": 1, "$": 7, "a_b": 4, "k": 1, "s": "a", "names": ["a"], "o": {}, "t": True, "n": None}
 
 
+# strings in which a backslash stands directly before / after a quote, written in either quote style
+RAW_QUOTES = [r"""$["it\\'s"]""", r"""$[?@.n == "a\\'b"]""", r"""$["\\'"]""", r"""$['\\\'']""", r"""$["'\\"]""", r"""$['\'\\']""", r"""$["\"\\"]""",
+              r"""$[?@.n == '\\\'' || @.n == "\\\""]""", r"""$["a\\\\'b", 'c\\"d']""", r"""$[?@["\\'"] == '\\']"""]
+QUOTE_DOCS = [{"it\\'s": 1, "\\'": 2, "'\\": 3, '"\\': 4, "a\\\\'b": 5, 'c\\"d': 6, "'": 7, "\\": 8},
+              [{"n": "a\\'b"}, {"n": "\\'"}, {"n": '\\"'}, {"n": "'"}, {"\\'": "\\"}]]
+
+
 def gen(rng, tier):
+    for text in RAW_QUOTES:
+        yield {"text": text, "docs": QUOTE_DOCS, "ctx": Q.CTX, "env": None}
     for text in RAW_TOKEN_NAMES:
         yield {"text": text, "docs": TOKEN_DOCS, "ctx": TOKEN_CTX, "env": None}
     for text in RAW_RE:
